@@ -121,7 +121,9 @@ int libwifi_get_rsn_info(struct libwifi_rsn_info *info, const unsigned char *tag
  * any overlap between group cipher and pairwise cipher.
  */
 void libwifi_enumerate_rsn_suites(struct libwifi_rsn_info *rsn_info, struct libwifi_bss *bss) {
-    switch (rsn_info->group_cipher_suite.suite_type) {
+    // Suite selectors only have their IEEE meaning under the IEEE OUI
+    int group_is_ieee = (memcmp(rsn_info->group_cipher_suite.oui, CIPHER_SUITE_OUI, 3) == 0);
+    switch (group_is_ieee ? rsn_info->group_cipher_suite.suite_type : -1) {
         case CIPHER_SUITE_WEP40:
             bss->encryption_info |= LIBWIFI_GROUP_CIPHER_SUITE_WEP40;
             break;
@@ -395,7 +397,9 @@ int libwifi_get_wpa_info(struct libwifi_wpa_info *info, const unsigned char *tag
  * any overlap between group cipher and pairwise cipher.
  */
 void libwifi_enumerate_wpa_suites(struct libwifi_wpa_info *wpa_info, struct libwifi_bss *bss) {
-    switch (wpa_info->multicast_cipher_suite.suite_type) {
+    // Suite selectors only have their WPA meaning under the Microsoft OUI
+    int multicast_is_msft = (memcmp(wpa_info->multicast_cipher_suite.oui, MICROSOFT_OUI, 3) == 0);
+    switch (multicast_is_msft ? wpa_info->multicast_cipher_suite.suite_type : -1) {
         case CIPHER_SUITE_WEP40:
             bss->encryption_info |= LIBWIFI_GROUP_CIPHER_SUITE_WEP40;
             break;
